@@ -8,8 +8,11 @@
                      (an empty cluster is an empty field), e.g.  0,2,1;3;;4
            pick    : first | last | h<seed>   (order of base selection for cluster_par)
            withcomp: 1 = also print the specification [components]
-   stdout: <id> iso=<0|1> raw=<model clusterization in list order> canon=<sorted> comp=<sorted | ->
-           or <id> OUT-OF-FUEL                                                                    *)
+   stdout: <id> iso=<0|1> raw=<model clusterization in list order> canon=<sorted> comp=<sorted | -> plain=<0|1>
+           or <id> OUT-OF-FUEL
+           The model run is one whole call: cluster_step_fd (seq) / cluster_step_m (par), i.e. the newton-isolation test
+           AS CODED (loops and breaks, on the matrix TN of the stored radii) followed by the traversal; iso is that test's
+           outcome, plain the outcome of the plain test newton_isolated (equal by C07_newton_iso_*_as_coded).          *)
 open Cluster
 
 let rec nat_of_int (k : int) : nat = if k <= 0 then O else S (nat_of_int (k - 1))
@@ -43,7 +46,8 @@ let () =
         let old_i = parse_old olds in
         let old = List.map (List.map (fun k -> if k >= 0 && k <= n then nats.(k) else nat_of_int k)) old_i in
         let ntot = List.length (List.concat old_i) in
-        let iso = newton_isolated touchN (nat_of_int ntot) in
+        let plain = newton_isolated touchN (nat_of_int ntot) in
+        let iso = (match variant with "seq" -> newton_iso_fd touchN (nat_of_int ntot) | _ -> newton_iso_m touchN (nat_of_int ntot)) in
         let pickf : nat list -> nat =
           match pick with
           | "first" -> (fun _ -> O)
@@ -53,8 +57,8 @@ let () =
             (fun q -> nat_of_int ((Hashtbl.hash (seed, List.map int_of_nat q)) mod (max 1 (List.length q)))) in
         let res =
           match variant with
-          | "seq" -> cluster_step_seq touchN touch old
-          | "par" -> cluster_par pickf touch iso old
+          | "seq" -> cluster_step_fd touchN touch old
+          | "par" -> cluster_step_m pickf touchN touch old
           | _ -> failwith "variant" in
         (match res with
          | None -> Printf.printf "%s OUT-OF-FUEL\n" id
@@ -62,8 +66,8 @@ let () =
            let csi = List.map (List.map int_of_nat) cs in
            let comp =
              if wc = "1" then show (canon (List.map (List.map int_of_nat) (components touch old))) else "-" in
-           Printf.printf "%s iso=%d raw=%s canon=%s comp=%s\n" id (if iso then 1 else 0)
-             (show csi) (show (canon csi)) comp)
+           Printf.printf "%s iso=%d raw=%s canon=%s comp=%s plain=%d\n" id (if iso then 1 else 0)
+             (show csi) (show (canon csi)) comp (if plain then 1 else 0))
       | [""] | [] -> ()
       | _ -> failwith ("bad line: " ^ line)
     done
